@@ -279,6 +279,21 @@ func (e *Exec) envPatternIntrinsic(fn *ssa.Function, name string) Intrinsic {
 			}
 		}
 	}
+	// decimal / integer stringers: digits of a symbolic value are an opaque string
+	switch name {
+	case "(cosmossdk.io/math.LegacyDec).String", "(cosmossdk.io/math.Int).String", "(cosmossdk.io/math.Uint).String",
+		"(github.com/osmosis-labs/osmosis/osmomath.BigDec).String", "(github.com/osmosis-labs/osmosis/osmomath.BigInt).String":
+		return func(e *Exec, st *State, fn *ssa.Function, args []Value, depth int) []Outcome {
+			if a, ok := args[0].(*Agg); ok && len(a.Elems) == 1 {
+				if p, ok := a.Elems[0].(Ptr); ok && p.Obj != 0 {
+					if t, ok := e.load(st, p).(*Term); ok && t.Op != OpConst {
+						return ret1(st, e.opaqueString("decstr:"+name, t))
+					}
+				}
+			}
+			return e.runBody(st, fn, args, depth)
+		}
+	}
 	// generated (*T).Marshal / (*T).Unmarshal of protobuf messages
 	if fn.Signature.Recv() != nil && (fn.Name() == "Marshal" || fn.Name() == "Unmarshal") {
 		rt := fn.Signature.Recv().Type()
@@ -345,6 +360,46 @@ func init() {
 		R("(encoding/binary.bigEndian)."+n.name, get(n.n, true))
 		R("(encoding/binary.littleEndian).Put"+n.name, put(n.n, false))
 		R("(encoding/binary.littleEndian)."+n.name, get(n.n, false))
+	}
+}
+
+func init() {
+	R := func(name string, in Intrinsic) { intrinsics[name] = in }
+	load := func(e *Exec, st *State, fn *ssa.Function, args []Value, depth int) []Outcome {
+		return ret1(st, e.load(st, args[0]))
+	}
+	storeFn := func(e *Exec, st *State, fn *ssa.Function, args []Value, depth int) []Outcome {
+		e.store(st, args[0], args[1])
+		return ret1(st, nil)
+	}
+	add := func(e *Exec, st *State, fn *ssa.Function, args []Value, depth int) []Outcome {
+		v := e.TS.Add(e.load(st, args[0]).(*Term), args[1].(*Term))
+		v = e.wrap(v, fn.Signature.Results().At(0).Type())
+		e.store(st, args[0], v)
+		return ret1(st, v)
+	}
+	cas := func(e *Exec, st *State, fn *ssa.Function, args []Value, depth int) []Outcome {
+		cur := e.load(st, args[0])
+		eq := e.equal(st, cur, args[1], nil)
+		if eq.Op != OpBConst {
+			unsupported("symbolic atomic compare-and-swap")
+		}
+		if eq.B {
+			e.store(st, args[0], args[2])
+		}
+		return ret1(st, eq)
+	}
+	swap := func(e *Exec, st *State, fn *ssa.Function, args []Value, depth int) []Outcome {
+		old := e.load(st, args[0])
+		e.store(st, args[0], args[1])
+		return ret1(st, old)
+	}
+	for _, t := range []string{"Int32", "Int64", "Uint32", "Uint64", "Uintptr", "Pointer"} {
+		R("sync/atomic.Load"+t, load)
+		R("sync/atomic.Store"+t, storeFn)
+		R("sync/atomic.Add"+t, add)
+		R("sync/atomic.CompareAndSwap"+t, cas)
+		R("sync/atomic.Swap"+t, swap)
 	}
 }
 
